@@ -18,7 +18,8 @@ NAMES = ["1", "2", "7", "10", "n", "01"]
 MBOXES = ["m1", "m2"]
 PHASES = ["pake", "version", "0"]
 BODIES = ["", "00", "c0ffee", "é世\U0001f600", "a\u0000b"]
-MOODS = ["happy", "lonely", "scary", "errory", "weird", ""]
+# (the last three are the server's OWN result names -- a client may send them as its mood like any other string)
+MOODS = ["happy", "lonely", "scary", "errory", "weird", "", "pruney", "crowded", "quiet"]
 IDS = ["i1", "i2", "ü"]
 # unusual but valid identifiers ("string-valued identifiers of any Unicode content"; no lone surrogates:
 # those are outside the properties' domain).  Used with probability Profile.p_odd wherever a client
